@@ -46,7 +46,7 @@ type OpProfile struct {
 
 func DefaultOpProfile() OpProfile {
 	return OpProfile{Depth: 4, Width: 3, PAlias: 0.08, PVar: 0.3, PFragment: 0.06, PInline: 0.06, PDirective: 0.03, PDirVar: 0.15,
-		PNodeRoot: 0.05, PTypename: 0.1, PExplicitID: 0.2, POpName: 0.3, PMultiOp: 0.05, PVarDefault: 0.15, PVarOmit: 0.3, PVarNull: 0.1,
+		PNodeRoot: 0.05, PTypename: 0.1, PExplicitID: 0.2, POpName: 0.3, PMultiOp: 0.25, PVarDefault: 0.15, PVarOmit: 0.3, PVarNull: 0.1,
 		MaxRoots: 3, Kind: ast.Query, Pool: 5}
 }
 
